@@ -1017,6 +1017,8 @@ class Parsent(object):
         self.closed = False
         self.errored = False
         self.error = None
+        self.parms = None  # chunk extensions and trailers belong to one message only
+        self.trails = None
 
         while not self.started:
             if self.msg:
